@@ -159,6 +159,17 @@ CHECKS = {
                      'the entry covering the packet, lifetime within +5 s; overlapping ACQUIREs are not lost; unknown indices are '
                      'ignored.',
                 note='a restart re-initialises every host of the scenario; policies of different entries are generated disjoint'),
+    'C11': dict(level='exploration', design='3 C11',
+                technique='exhaustive enumeration of proposal pairs over a small transform universe against a reference '
+                          'specification (function level); Hypothesis-generated configuration pairs end to end with the chosen '
+                          'suite recomputed from the configuration; responses and KE payloads re-written by a keyed man in the '
+                          'middle (reference codec), complete grid of stage x edit',
+                text='intersection / is_subset / first-acceptable-proposal equal the specification on every pair of 819 proposals '
+                     '(thorough; every 5th in quick); the suite on the wire and in NEWSA is the responder\'s first preference within '
+                     'the initiator\'s offer; disjoint offers give NO_PROPOSAL_CHOSEN and no SA; 9 kinds of tampered proposals at 4 '
+                     'negotiation stages are refused; wrong KE group gives INVALID_KE_PAYLOAD with the chosen group; unoffered '
+                     'suggested groups are not followed.',
+                note='exhaustive only for the stated universe'),
 }
 
 NOT_YET = 'check not built yet in this session (planned, see DESIGN.md section 8)'
